@@ -14,7 +14,7 @@
    by one object id when the call ran first); contents and order are otherwise unchanged. *)
 From Coq Require Import List String Ascii ZArith Bool Arith Lia.
 From Verif Require Import Base Ops Interp RefVM Unparse Severity SeverityProofs AnalysisTable
-  Analysis AnalysisProofs FloorProofs SimRel SimProofs Inject InjectProofs.
+  Analysis AnalysisProofs FloorProofs SimRel SimProofs Shape ShapeProofs Inject InjectProofs InjectSevProofs InjectFkFrame.
 Import ListNotations.
 Local Open Scope nat_scope.
 
@@ -29,41 +29,96 @@ Theorem C08_frame : forall dn hp lg0 b p s s',
   vrun_from p s = Ok s' -> vrun_from p (lift dn hp lg0 b s) = Ok (lift dn hp lg0 b s').
 Proof. exact vrun_lift. Qed.
 
-(* what "the given arguments" decode to: the VM's own evaluation of the encoded argument block;
-   for constant arguments it is the constants themselves, for every m n *)
-Theorem C08_args_eval_consts : forall m n cs,
-  plain2 m n = true -> args_eval m n (map AConst cs) (map VConst cs) [].
-Proof. exact args_eval_consts. Qed.
+(* ---- which arguments the helpers accept (as the code: int / float / str / bytes constants -- not
+   bool, not None --, lists of accepted arguments, dicts with constant keys and accepted values, nested
+   to any depth; anything else makes the helper raise ValueError) and what they decode to ---- *)
+Theorem C08_insert_accepts : forall m n args rf rep p,
+  ends_with_stop p = true -> forallb arg_ok args = true -> rf = true \/ rep = true ->
+  exists p', inject (MInsert m n args rf rep) p = Ok p'.
+Proof.
+  intros m n args rf rep p E A F. cbn [inject]. unfold insert_python. rewrite E, A. cbn [negb].
+  destruct rf; [destruct rep; eexists; reflexivity|]. destruct F as [F|F]; [discriminate|]. subst rep.
+  eexists; reflexivity.
+Qed.
+
+(* run-last keep additionally needs fickling's own interpreter to accept the (prefixed) pickle: that
+   is where the memo index comes from *)
+Theorem C08_insert_run_last_keep_accepts : forall m n args p,
+  ends_with_stop p = true -> forallb arg_ok args = true ->
+  (exists p', inject (MInsert m n args false false) p = Ok p') <->
+  (exists f, Interp.run (insert_block (skip_noops p) (call_setup m n (encode_objs args)) p) = Ok f).
+Proof.
+  intros m n args p E A. cbn [inject]. unfold insert_python. rewrite E, A. cbn [negb].
+  destruct (run _) as [f|e]; cbn [bind]; split; intros (x & H); try discriminate H; eauto.
+Qed.
+
+Theorem C08_refuses : forall md p,
+  match md with
+  | MInsert _ _ args _ _ => ends_with_stop p = false \/ forallb arg_ok args = false
+  | MAppend _ _ cs _ => ends_with_stop p = false \/ forallb const_ok cs = false
+  | MCallObj _ _ _ cargs => ends_with_stop p = false \/ forallb const_ok cargs = false
+  | MMagic _ _ => False
+  end -> inject md p = Err EValue.
+Proof.
+  intros [m n args rf rep|m n cs pop|magic index|fdef fname bc cargs] p H; cbn [inject]; try contradiction;
+    unfold insert_python, append_python, insert_call_on_object;
+    destruct (ends_with_stop p); cbn [negb]; try reflexivity;
+    destruct H as [H|H]; try discriminate H; rewrite H; reflexivity.
+Qed.
+
+(* "exactly the given arguments": dec_args args = (values, heap objects), a direct recursive reading of
+   the arguments (constants are themselves; a list / dict is a fresh heap object holding its decoded
+   items, inner objects allocated first).  For EVERY argument list -- nested lists and dicts to any
+   depth -- the encoded block GLOBAL m n, MARK, <_encode_python_obj of each argument>, TUPLE evaluates on
+   the reference VM, from the empty machine, to exactly these *)
+Theorem C08_args_eval : forall m n args,
+  plain2 m n = true ->
+  vrun_from (call_setup m n (encode_objs args)) vm_init =
+  Ok (mkVm [VTuple (fst (dec_args args)); VGlobal m n] [] [] (snd (dec_args args)) [EvResolve m n] 0 None).
+Proof. exact args_eval_total. Qed.
+
+Theorem C08_args_eval_consts : forall cs, dec_args (map AConst cs) = (map VConst cs, []).
+Proof. exact dec_args_consts. Qed.
 
 (* insert_python / insert_python_eval / insert_python_exec, run_first=True: exactly one call
-   (VGlobal m n)(vals), made first (oldest log entries: its EvResolve, then the EvCall producing object
-   0); every base event follows in the original order; value = the base's (keep) or the call's
+   (VGlobal m n)(decoded args), made first (oldest log entries: its EvResolve, then the EvCall producing
+   object 0); every base event follows in the original order; value = the base's (keep) or the call's
    object 0 (replace); stack empty at STOP *)
-Theorem C08_insert_run_first : forall m n args vals hp,
-  plain2 m n = true -> args_eval m n args vals hp ->
+Theorem C08_insert_run_first : forall m n args,
+  plain2 m n = true ->
   forall p r sq replace p',
   base_run p = Some (r, sq) ->
   inject (MInsert m n args true replace) p = Ok p' ->
+  let vals := fst (dec_args args) in
+  let hp := snd (dec_args args) in
   exists mm',
   vrun_from p' vm_init =
   Ok (mkVm [] [] mm' (hp ++ map (shh 1 hp) (heap sq))
            (map (she 1 hp) (log sq) ++ [EvCall (VGlobal m n) vals None 0; EvResolve m n])
            (nobj sq + 1) (Some (if replace then VObj 0 else shv 1 hp r))).
-Proof. intros m n args vals hp P AE p r sq rep p' HB HI. eapply insert_run_first_spec; eauto. Qed.
+Proof.
+  intros m n args P p r sq rep p' HB HI. cbv zeta.
+  eapply insert_run_first_spec; eauto. apply args_eval_total. exact P.
+Qed.
 
 (* run_first=False: the global is resolved first, the call is the LAST event; the memo index the
    injector takes from fickling's symbolic run equals the VM's memo length (C09 shape lockstep) *)
-Theorem C08_insert_run_last : forall m n args vals hp,
-  plain2 m n = true -> args_eval m n args vals hp ->
+Theorem C08_insert_run_last : forall m n args,
+  plain2 m n = true ->
   forall p r sq replace p',
   base_run p = Some (r, sq) ->
   inject (MInsert m n args false replace) p = Ok p' ->
+  let vals := fst (dec_args args) in
+  let hp := snd (dec_args args) in
   exists mm',
   vrun_from p' vm_init =
   Ok (mkVm [] [] mm' (hp ++ map (shh 0 hp) (heap sq))
            (EvCall (VGlobal m n) vals None (nobj sq + 0) :: map (she 0 hp) (log sq) ++ [EvResolve m n])
            (S (nobj sq + 0)) (Some (if replace then VObj (nobj sq + 0) else shv 0 hp r))).
-Proof. intros m n args vals hp P AE p r sq rep p' HB HI. eapply insert_run_last_spec; eauto. Qed.
+Proof.
+  intros m n args P p r sq rep p' HB HI. cbv zeta.
+  eapply insert_run_last_spec; eauto. apply args_eval_total. exact P.
+Qed.
 
 (* append_python: the base runs unchanged, then exactly one call.  pop_result=True keeps r and
    leaves the stack empty; pop_result=False returns the call's value and LEAVES r ON THE STACK *)
@@ -110,6 +165,26 @@ Theorem C08_magic_int : forall magic index p s p',
   vrun_from p' s = vrun_from p s.
 Proof. intros magic index p s p' H. injection H as <-. apply magic_run_same. Qed.
 
+(* ---- the rewritten pickle still ends with its single STOP (pure list reasoning) ----
+   If the base ends in its only STOP then, for EVERY mode and every argument the helper accepts, the
+   rewritten program contains exactly one STOP, and it is the last opcode -- for insert_magic_int
+   provided the (resolved) index lies inside the program: list.insert at index >= len appends, so the
+   marker then lands after STOP (dead bytes; the run is still unchanged by C08_magic_int) *)
+Theorem C08_single_final_stop : forall md p p',
+  single_final_stop p = true -> inject md p = Ok p' ->
+  count_occ op_eq_dec p' OStop = 1 /\
+  (match md with
+   | MMagic _ index => (magic_slot index p < Z.of_nat (List.length p))%Z
+   | _ => True
+   end -> ends_with_stop p' = true).
+Proof. exact inject_single_final_stop. Qed.
+
+(* the side condition is necessary: index = len puts INT POP after STOP (observation, checked on the
+   real code; an explicit out-of-range index is outside the property's modes) *)
+Example C08_magic_index_past_stop_observation :
+  inject (MMagic 5 2) [OConst (CInt 1); OStop] = Ok [OConst (CInt 1); OStop; OConst (CInt 5); OPop].
+Proof. vm_compute. reflexivity. Qed.
+
 (* regression witness of C08-F2: index -2 on `1 .` now leaves the result alone *)
 Example C08_magic_negative_index_fixed :
   inject (MMagic 5 (-2)) [OConst (CInt 1); OStop] = Ok [OConst (CInt 5); OPop; OConst (CInt 1); OStop].
@@ -128,8 +203,10 @@ Proof. do 2 eexists. split; vm_compute; reflexivity. Qed.
 Definition demo_args : list arg :=
   [AConst (CStr "x"); AList [AConst (CInt 1); ADict [(CStr "k", AList [])]]; ADict []].
 
-Example C08_nonvacuous_args : exists vals hp, args_eval "c08_sink" "inj" demo_args vals hp /\ List.length hp = 4.
-Proof. do 2 eexists. split; vm_compute; reflexivity. Qed.
+Example C08_nonvacuous_args :
+  forallb arg_ok demo_args = true /\ List.length (fst (dec_args demo_args)) = 3 /\ List.length (snd (dec_args demo_args)) = 4 /\
+  single_final_stop demo_base = true.
+Proof. vm_compute. auto. Qed.
 
 Example C08_nonvacuous_inject :
   forallb (fun md => match inject md demo_base with
@@ -163,29 +240,62 @@ Proof.
   eapply body_floor_nonstd; eauto. eapply events_imports_covered; eauto.
 Qed.
 
-(* builtins eval / exec (what the CLI and the PyTorch injector use; also the helper calls of
-   insert_function_call_on_unpickled_object): OVERTLY_MALICIOUS -- PARTIAL: unless the decompiled
-   program contains a call through a variable fickling introduced (the C04 alias escape D18, which
-   a base pickle can contain); that disjunct is not excluded here and is covered by the harness *)
-Theorem C08_never_likely_safe_builtin_partial : forall p' v first_var s protos fs b f args kw k,
-  vrun_from p' vm_init = Ok v -> In (EvCall (VGlobal b f) args kw k) (log v) ->
-  In f ["eval"; "exec"]%string ->
+(* FRAME lemma for fickling's SYMBOLIC interpreter (all 40 abstract opcodes, any program length),
+   driven by the reference VM: while the VM accepts q from a state of the same shape, the symbolic run
+   above extra bottom-of-stack items [bot] is the run without them, and leaves them untouched *)
+Theorem C08_frame_symbolic : forall bot q s v v' t,
+  shape_fk s = shape_vm v -> vrun_from q v = Ok v' -> run_from q (app_bot bot s) = Ok t ->
+  exists s', run_from q s = Ok s' /\ t = app_bot bot s' /\ shape_fk s' = shape_vm v'.
+Proof. exact run_unlift. Qed.
+
+(* what fickling's OWN interpreter records for the injected call, for EVERY call-injecting mode and
+   flag combination (for the call-on-object helper: its eval of the function name): the decompiled
+   program contains `_var<i> = n(...)` with the callee printed by its NAME -- whatever the base pickle
+   does (aliases of eval, memo tricks, its own globals named eval ...).  For run_first=False, where the
+   REDUCE is separated from its GLOBAL by the whole base pickle, this uses C08_frame_symbolic *)
+Theorem C08_injected_call_decompiled : forall md m n p r sq p' first_var s,
+  injected_callee md = Some (m, n) -> plain2 m n = true ->
+  single_final_stop p = true -> base_run p = Some (r, sq) ->
+  inject md p = Ok p' -> run_from p' (fk_init first_var) = Ok s ->
+  exists i es, In (SAssignV i (ECall (EName n) es None)) (body s).
+Proof. exact injected_call_decompiled_all. Qed.
+
+(* hence builtins eval / exec injected by ANY mode (what `fickling --inject` with or without
+   --run-last / --replace-result, the PyTorch injector and insert_function_call_on_unpickled_object do)
+   is rated OVERTLY_MALICIOUS outright: no alias / shadowing side condition, because BadCalls goes by
+   the printed callee name and the injected callee is always printed by name *)
+Theorem C08_never_likely_safe_builtin : forall md m n p r sq p' first_var s protos fs,
+  injected_callee md = Some (m, n) -> plain2 m n = true -> In n ["eval"; "exec"]%string ->
+  single_final_stop p = true -> base_run p = Some (r, sq) -> inject md p = Ok p' ->
   run_from p' (fk_init first_var) = Ok s -> analyze crepr std protos s = Some fs ->
-  doc_rank (verdict fs) = 5 \/ (exists i j es kwe, In (SAssignV i (ECall (EVar j) es kwe)) (body s)).
+  doc_rank (verdict fs) = 5.
 Proof.
-  intros p' v fv s protos fs b f args kw k Hv Hin Hf Hs HA.
-  destruct (run_lockstep p' _ _ _ _ _ (R_init fv) Hs Hv) as (al & _ & [Rs Rm Rh Re Rc Rv Rp]).
-  destruct (events_calls_covered _ _ _ Re _ _ _ _ Hin) as (i & fe & es & kwe & Hst & Hf' & _).
-  inversion Hf'; subst.
-  - left. eapply body_floor_bad_call; eauto.
-    assert (forallb (fun x => mem_str x bad_calls) ["eval"; "exec"]%string = true) as T
-      by (vm_compute; reflexivity).
-    rewrite forallb_forall in T. specialize (T _ Hf). clear - T.
-    induction bad_calls as [|y r IH]; cbn in T; [discriminate|].
-    destruct (String.eqb_spec f y) as [->|_]; [left; reflexivity | right; auto].
-  - right. eauto.
+  intros md m n p r sq p' fv s protos fs HC P Hf HS HB HI Hs HA.
+  destruct (injected_call_decompiled_all md m n p r sq p' fv s HC P HS HB HI Hs) as (i & es & Hin).
+  eapply body_floor_bad_call; eauto.
+  assert (forallb (fun x => mem_str x bad_calls) ["eval"; "exec"]%string = true) as T
+    by (vm_compute; reflexivity).
+  rewrite forallb_forall in T. specialize (T _ Hf). clear - T.
+  induction bad_calls as [|y r IH]; cbn in T; [discriminate|].
+  destruct (String.eqb_spec n y) as [->|_]; [left; reflexivity | right; auto].
 Qed.
 End Severity.
+
+(* a base pickle that itself aliases builtins.eval through BUILD (the C04 alias escape D18) and calls
+   the alias: the run-last injection into it is still rated OVERTLY_MALICIOUS *)
+Definition alias_base : list op :=
+  [ONoop; OGlobal "builtins" "eval"; OConst CNone; OBuild; OMark; OConst (CStr "1"); OTuple; OReduce; OStop].
+Example C08_severity_alias_base :
+  match inject (MInsert "builtins" "eval" [AConst (CStr "2")] false false) alias_base with
+  | Ok p' => match run p', base_run alias_base with
+             | Ok s, Some _ =>
+                 match analyze (fun _ => "'1'"%string) (fun _ => true) [] s with
+                 | Some fs => doc_rank (verdict fs) = 5 /\ single_final_stop alias_base = true
+                 | None => False end
+             | _, _ => False end
+  | Err _ => False
+  end.
+Proof. vm_compute. auto. Qed.
 
 Example C08_severity_nonvacuous :
   match inject (MInsert "builtins" "eval" [AConst (CStr "1+1")] false false) demo_base with
@@ -200,7 +310,15 @@ Proof. vm_compute. reflexivity. Qed.
 
 Print Assumptions C08_base_behaviour.
 Print Assumptions C08_frame.
+Print Assumptions C08_insert_accepts.
+Print Assumptions C08_insert_run_last_keep_accepts.
+Print Assumptions C08_refuses.
+Print Assumptions C08_args_eval.
 Print Assumptions C08_args_eval_consts.
+Print Assumptions C08_single_final_stop.
+Print Assumptions C08_frame_symbolic.
+Print Assumptions C08_injected_call_decompiled.
+Print Assumptions C08_never_likely_safe_builtin.
 Print Assumptions C08_insert_run_first.
 Print Assumptions C08_insert_run_last.
 Print Assumptions C08_append.
@@ -208,4 +326,3 @@ Print Assumptions C08_append_nopop_stack_refuted.
 Print Assumptions C08_call_on_object.
 Print Assumptions C08_magic_int.
 Print Assumptions C08_never_likely_safe_nonstd.
-Print Assumptions C08_never_likely_safe_builtin_partial.
